@@ -469,6 +469,10 @@ func startDNSServer() error {
 
 func stopDNSServer() (err error) {
 	if !isRunning() {
+		// The server may have been left stopped by a reconfiguration that has
+		// failed.  The modules it works with still have data to save.
+		closeDNSServer()
+
 		return nil
 	}
 
